@@ -33,6 +33,13 @@ def _mk():
     add('_Bool|bool|gboolean', 'gboolean', 'bool')
     add('time_t', 'time_t', 'int')
     add('off_t', 'off_t', 'int')
+    # POSIX scalar types that are introspection types of their own
+    for n in ('dev_t', 'gid_t', 'pid_t', 'socklen_t', 'uid_t'):
+        add(n, n, 'int')
+    # typedefs of glib/grefcount.h and the BSD short hands of sys/types.h
+    add('grefcount|gatomicrefcount', 'gint', 'int', 32, True)
+    add('uint', 'guint', 'int', 32, False)
+    add('ulong', 'gulong', 'int', 64, False)
     return t
 
 BASIC = _mk()
